@@ -153,8 +153,14 @@ def main(prop, spec, argv, seed, chk):
                             # the largest fault-free space: violations that need two consecutive view changes showed up
                             # only after ~0.5 M behaviours (seeded change C20c)
                             num = par["deepnum"].get(key, par["deepnum"]["default"])
+                        workers = par["workers"]
+                        if aname == "none" and key in par.get("deep", {}):
+                            # the fault-free spaces of the two dBFT 2.1 models: violations there sit behind two dozen specific steps
+                            # (seeded changes C20j, C20k, C20l, C20m - the last one needed ~145 000 behaviours at MaxView=1)
+                            num = max(num, par["deep"][key].get(str(mv), num))
+                            workers = par.get("deepworkers", workers)
                         jobs.append({"model": key, "path": path, "invs": invs, "constraint": constraint, "consts": consts, "assign": aname,
-                                     "num": num, "depth": par["depth"], "seed": s, "workers": par["workers"], "timeout": par["timeout"],
+                                     "num": num, "depth": par["depth"], "seed": s, "workers": workers, "timeout": par["timeout"],
                                      "dir": os.path.join(base, "%s-mv%d-%s" % (key, mv, aname))})
                         if mv == 2:
                             jobs.append({"model": key, "path": path, "invs": invs, "constraint": constraint, "consts": consts, "assign": aname, "dump": True,
